@@ -114,3 +114,21 @@ pub(crate) fn stub_push_front_record<T>(this: &mut Deque, _buf: &mut Buffer<T>, 
 pub(crate) fn stub_push_back_blocked_unreachable<T>(_this: &mut Deque, _buf: &mut Buffer<T>, _value: T) {
     panic!("C01.order: a DATA frame that could not be sent was appended to the BACK of its stream's queue (later frames / END_STREAM overtake unsent bytes)")
 }
+
+/// Ghost for `Deque::push_back` in the reset obligations (C17.one): records how many frames
+/// were appended and checks each is an RST_STREAM, keeping its stream id and code.
+pub(crate) static mut G_BACK_RESETS: (u32, u32, u32) = (0, 0, 0); // count, stream id, code
+pub(crate) fn stub_push_back_record_reset<T>(this: &mut Deque, _buf: &mut Buffer<T>, value: T) {
+    assert!(std::mem::size_of::<T>() == std::mem::size_of::<GF>());
+    let f = unsafe { std::mem::transmute_copy::<T, GF>(&value) };
+    std::mem::forget(value);
+    match &f {
+        crate::frame::Frame::Reset(r) => unsafe {
+            G_BACK_RESETS = (G_BACK_RESETS.0 + 1, u32::from(r.stream_id()), u32::from(r.reason()));
+        },
+        _ => panic!("C17.one: a reset queued something other than RST_STREAM"),
+    }
+    std::mem::forget(f);
+    assert!(this.indices.is_none(), "C17.one: RST_STREAM queued behind unsent frames that were not discarded (they would be sent after the reset)");
+    this.indices = Some(Indices { head: 0, tail: 0 });
+}
